@@ -217,6 +217,7 @@ def gen_case(streams: Streams, tier: str, prop='C14') -> dict:
              'r.KPoint', 'r.Segmented', 'r.PartiallyMapped', 'r.Order', 'r.Cycle']
     matrix = [[n, searchlib.gen_seed(mx)] for n in mx.sample(names, 5)]
     return {'prop': prop, 'space': space, 'pop': pop, 'matrix': matrix,
+            'located': mx.random() < 0.7,     # decision points with locations: unique ids
             'matrix_m': mx.randint(2, 5),
             'gens': cfg.randint(3, 8 if tier == 'quick' else 30),
             'seed': cfg.randint(0, 10 ** 6), 'tested': tested, 'repro': repro, 'views': views,
@@ -248,6 +249,20 @@ def _node_sig(n):
         return (type(s).__name__, str(s.id))
     except Exception:  # pylint: disable=broad-except
         return (type(s).__name__, '?')
+
+
+_NAMES_BY_ID = {}
+
+
+def _names_by_id(spec):
+    """id path -> name of every decision point of a spec (cached per spec object)."""
+    ent = _NAMES_BY_ID.get(id(spec))
+    if ent is None or ent[0] is not spec:
+        if len(_NAMES_BY_ID) > 64:
+            _NAMES_BY_ID.clear()
+        ent = (spec, {dp.id.path: dp.name for dp in spec.decision_points})
+        _NAMES_BY_ID[id(spec)] = ent
+    return ent[1]
 
 
 def alignment_errors(d, spec, views, full=True):
@@ -312,6 +327,39 @@ def alignment_errors(d, spec, views, full=True):
                 errs.append(('view-not-lossless', f'from_dict(to_dict({kt},{vt},{mk})) gives '
                              f'{back!r:.160}, original {d!r:.160}'))
                 return errs
+    # the same decisions under two key styles: ids are unique per
+    # node, names may repeat (a named point inside a candidate that several
+    # sub-choices pick); the name-keyed view must be the decision-point-keyed one
+    # regrouped by name, values accumulated in traversal order
+    for vt in ('value',):
+        try:
+            by_id = d.to_dict(key_type='id', value_type=vt, multi_choice_key='subchoice')
+            by_name = d.to_dict(key_type='name_or_id', value_type=vt, multi_choice_key='subchoice')
+            names = _names_by_id(spec)
+        except Exception:  # pylint: disable=broad-except
+            break
+        if any(k not in names for k in by_id) or \
+                len(names) != len(spec.decision_points):
+            break           # a space built without locations: ids are not unique
+        want, multi = {}, set()
+        for idp, val in by_id.items():
+            key = names[idp] if names[idp] else idp
+            if key in want:
+                if key not in multi:
+                    want[key] = [want[key]]
+                    multi.add(key)
+                want[key].append(val)
+            else:
+                want[key] = val
+        canon = lambda x: [canon(y) for y in x] if isinstance(x, list) else (
+            x.to_numbers() if isinstance(x, pg.DNA) else x)
+        got = {str(k): canon(v) for k, v in by_name.items()}
+        exp = {str(k): canon(v) for k, v in want.items()}
+        if got != exp:
+            errs.append(('view-by-name', f"to_dict(key_type='name_or_id', value_type={vt!r}) = "
+                         f'{got!r:.200} but regrouping the id-keyed view by name gives '
+                         f'{exp!r:.200}'))
+            return errs
     for compact in (True, False):
         try:
             j = d.to_json(compact=compact)
@@ -376,7 +424,7 @@ def run_case(case: dict, prop=None):
     prop = prop or case.get('prop', 'C14')
     V = []
     faults, probes, states, log = {}, {}, [], []
-    spec = searchlib.build_root_space(case['space'])
+    spec = searchlib.build_root_space(case['space'], located=bool(case.get('located')))
     has_float = searchlib.space_has_float(case['space'])
     if case.get('algo_kind') == 'sweeping' and has_float:
         case = dict(case, algo_kind='random')
